@@ -4,7 +4,8 @@
 (* Events (ndjson, several runs per file):                                 *)
 (*   RunStart  cfg + outcome ("run" | "refused") + resolved nb / nA        *)
 (*   Sampled   k, order                                                    *)
-(*   Maximized k, memoryless, m, consistent, burn_flag, steps, same_stats  *)
+(*   Maximized k, memoryless, m, consistent, burn_flag, steps, same_stats, *)
+(*             noise_rule, probs_rule                                       *)
 (*   Cooled    k, tnum, tden, close, is_one                                *)
 (*   Logged    k, emitted, mutated, rng_moved                              *)
 (*   RunEnd    outcome ("done" | "crashed"), pop_at_mode                   *)
@@ -54,6 +55,11 @@ TMaximized == /\ IsEvent("Maximized") /\ Maximize /\ Ev.k = k
               /\ (mem'[1] = "avg" /\ Ev.memoryless = "no") => (Ev.m = -1 \/ (Ev.m = mem'[2] /\ Ev.consistent))
               /\ Ev.burn_flag = (k <= NBurn(cfg))
               /\ Ev.same_stats                                  \* the maximization used the algorithm's statistics
+              \* closed forms of MStep.tla evaluated by the recorder on the statistics IN FORCE and the data mask:
+              \* the noise level is the RMS residual over observed entries (globally / per feature), the mixture
+              \* probabilities are the mean cluster responsibilities and sum to one ("na" when the model has neither)
+              \* (judged by the check of C04 only: IOEnv.CLOSED_FORMS = "1")
+              /\ (IOEnv.CLOSED_FORMS = "1") => (Ev.noise_rule \in {"ok", "na"} /\ Ev.probs_rule \in {"ok", "na"})
               /\ BatchOK([a \in 1..Len(Ev.steps) |-> Spec2(Ev.steps[a])])
 
 TCooled == /\ IsEvent("Cooled") /\ Cool /\ st' = "run" /\ Ev.k = k
